@@ -3,6 +3,7 @@ import SideVerif.Drive.Cal
 import SideVerif.Drive.C01
 import SideVerif.Drive.C07
 import SideVerif.Drive.C16
+import SideVerif.Drive.C18
 open Lean
 namespace SideVerif.Drive
 
@@ -15,6 +16,7 @@ def dispatch (op : String) (j : Json) : Except String Json :=
   | "c01" => c01 j
   | "c07.fn" => c07Fn j
   | "c16" => c16 j
+  | "c18" => c18 j
   | "ping" => pure (Json.str "pong")
   | _ => throw s!"unknown op {op}"
 
